@@ -113,17 +113,6 @@ def backOf (st : St) (i : Nat) (r : Rec) : List String :=
 
 def verStr : Ver → String | .gfa1 => "gfa1" | .gfa2 => "gfa2"
 
-/-- `Path._link_orient`: "-" when the step walks the link backwards, i.e. it is matched by the complement of the
-    link only (a hairpin link can match a step both ways: it is then taken forwards) -/
-def linkOrient (k s : Link) : String :=
-  if k.compatCompl s.frm s.fo s.to s.too s.ovl && !k.compatDirect s.frm s.fo s.to s.too s.ovl then "-" else "+"
-
-/-- the record is a stored link that satisfies the step -/
-def fits (s : Link) (q : Rec) : Bool :=
-  match q.linkOf with
-  | some k => k.compatible s.frm s.fo s.to s.too s.ovl
-  | none => false
-
 /-- `path.links`: for every step the stored link it resolves to (first compatible one) and the orientation flag -/
 def pathLinks (st : St) (p : Rec) : List String :=
   p.pathSteps.map (fun s =>
